@@ -522,10 +522,25 @@ func Run(tier string, sh lib.Shard, rep *lib.Report) {
 	if rep.Property != "C03" {
 		rep.Require("rejected_requests_probed", "free_rejection_probes", "advertised_waits_checked", "regain_probes")
 	}
+	// the small special models first: the big searches below may use up the whole time budget
+	if rep.Property == "C03" {
+		runGrow(tier, sh, rep)
+		runRebalanced(tier, sh, rep)
+		rep.Require("requests_after_the_rate_set_grew", "requests_after_the_rates_were_rebalanced")
+	}
+	if rep.Property == "C13" {
+		runInPlace(tier, sh, rep)
+		rep.Require("requests_after_the_rate_set_was_changed_in_place", "advertised_delays_waited_out", "idle_refills_checked")
+	}
 	var results []string
 	gang := os.Getenv("VERIF_GANG_DIR")
 	for _, cfg := range configs(tier) {
 		if cfg.magnitudes && rep.Property != "C03" && tier != "thorough" {
+			// (the continuation probes multiply the cost per state) quick tier: all histories of two operations only
+			m2 := model(cfg, tier, false, 2)
+			r2 := m2.RunDistributed(rep, sh, gang)
+			rep.Add("states["+m2.Name+"]", r2.States)
+			rep.Count("magnitude_configurations_probed_to_depth_2")
 			continue
 		}
 		if cfg.c13only && rep.Property == "C03" {
@@ -550,14 +565,6 @@ func Run(tier string, sh lib.Shard, rep *lib.Report) {
 		r2 := m2.RunDistributed(rep, sh, gang)
 		rep.Add("states["+m2.Name+"]", r2.States)
 	}
-	if rep.Property == "C03" {
-		runGrow(tier, sh, rep)
-		rep.Require("requests_after_the_rate_set_grew")
-	}
-	if rep.Property == "C13" {
-		runInPlace(tier, sh, rep)
-		rep.Require("requests_after_the_rate_set_was_changed_in_place", "advertised_delays_waited_out", "idle_refills_checked")
-	}
 	rep.Bounds["searches"] = results
 	rep.Nontrivial = rep.States
 	// keep only this property's violations
@@ -574,6 +581,9 @@ func Replay(rp map[string]any) (bool, string) {
 	name, _ := rp["config"].(string)
 	if name == "grow" {
 		return replayGrow(rp)
+	}
+	if name == "rebalanced" {
+		return replayRebalanced(rp)
 	}
 	if name == "in-place" {
 		return replayInPlace(rp)
